@@ -199,14 +199,6 @@ func (req *Request) Read(b *bufio.Reader) error {
 		if !config.IsValidValueSize(uint32(length)) {
 			return ErrValueTooLarge
 		}
-		if length > int(config.MCConf.BodyBig) {
-			if cmem.DBRL.FlushData.Size > int64(config.MCConf.FlushMax) {
-				logger.Warnf("ErrOOM key %s, size %d", req.Keys[0], length)
-				// the data block belongs to the refused command: swallow it
-				b.Discard(length + 2)
-				return ErrOOM
-			}
-		}
 		if req.Cmd == "cas" {
 			if len(parts) < 6 {
 				return ErrInvalidCmd
@@ -221,6 +213,15 @@ func (req *Request) Read(b *bufio.Reader) error {
 				return ErrInvalidCmd
 			}
 			req.NoReply = len(parts) > 5 && parts[5] == "noreply"
+		}
+
+		if length > int(config.MCConf.BodyBig) {
+			if cmem.DBRL.FlushData.Size > int64(config.MCConf.FlushMax) {
+				logger.Warnf("ErrOOM key %s, size %d", req.Keys[0], length)
+				// the data block belongs to the refused command: swallow it
+				b.Discard(length + 2)
+				return ErrOOM
+			}
 		}
 
 		RL.Get(req)
